@@ -6,7 +6,7 @@ Local Open Scope N_scope.
    exactly one of callback id / request_uri / authorization code / auth_req_id. *)
 Theorem one_index : forall w dyn ops s,
   In s (st_asess (s_store (fst (run_from w (init_state dyn) 0 ops)))) -> n_indexes s = 1%nat.
-Proof. exact one_index_all_histories. Qed.
+Proof. intros w dyn ops s H. exact (proj2 (one_index_all_histories w dyn ops) s H). Qed.
 Print Assumptions one_index.
 
 (* The callback endpoint re-enters a policy (shows a page or finishes with a navigation) only if the
